@@ -304,7 +304,7 @@ def follow(groups, wd, log):
         with open(path, "w") as f:
             json.dump(xlogs, f, separators=(",", ":"))
         env = dict(os.environ, TRACE_FILE=path)
-        env["JAVA_TOOL_OPTIONS"] = "-Dtlc2.tool.queue.IStateQueue=MemStateQueue"
+        env["JAVA_TOOL_OPTIONS"] = (env.get("JAVA_TOOL_OPTIONS", "") + " -Dtlc2.tool.queue.IStateQueue=MemStateQueue").strip()
         try:
             p = subprocess.run(["tlc", "-workers", "2", "-metadir", os.path.join(fwd, "meta-" + mod), "-noGenerateSpecTE", "-config", mod + ".cfg", mod + ".tla"],
                                cwd=fwd, env=env, stdout=subprocess.PIPE, stderr=subprocess.STDOUT, text=True, timeout=1800)
